@@ -414,30 +414,53 @@ func unguardedAssertions(c *Ctx, fns []*ssa.Function) (all int, bad []*ssa.TypeA
 				}
 			}
 			// (b) a dominating validator call whose non-nil result makes the function return
-			ir.EachInstr(fn, func(_ *ssa.BasicBlock, _ int, x ssa.Instruction) {
-				call, ok := x.(*ssa.Call)
-				if !ok || !flow.Dominates(call, ta) {
-					return
-				}
-				v := ir.StaticCallee(call)
-				if v == nil || !c.P.IsLib(v) {
-					return
-				}
-				if covers[v] == nil {
-					covers[v] = validatorCovers(v)
-				}
-				if !covers[v][key] {
-					return
-				}
-				// the assertion must be on the nil edge of the validator's result
-				for _, g := range flow.Guards(fn, ta.Block()) {
-					if val, op, ok := nilCompare(g.If.Cond); ok && val == ssa.Value(call) {
-						if (op == token.NEQ && !g.Branch) || (op == token.EQL && g.Branch) {
-							guarded = true
+			validatedAt := func(f *ssa.Function, at ssa.Instruction) bool {
+				okV := false
+				ir.EachInstr(f, func(_ *ssa.BasicBlock, _ int, x ssa.Instruction) {
+					call, ok := x.(*ssa.Call)
+					if !ok || !flow.Dominates(call, at) {
+						return
+					}
+					v := ir.StaticCallee(call)
+					if v == nil || !c.P.IsLib(v) {
+						return
+					}
+					if covers[v] == nil {
+						covers[v] = validatorCovers(v)
+					}
+					if !covers[v][key] {
+						return
+					}
+					// the assertion must be on the nil edge of the validator's result
+					for _, g := range flow.Guards(f, at.Block()) {
+						if val, op, ok := nilCompare(g.If.Cond); ok && val == ssa.Value(call) {
+							if (op == token.NEQ && !g.Branch) || (op == token.EQL && g.Branch) {
+								okV = true
+							}
 						}
 					}
+				})
+				return okV
+			}
+			if validatedAt(fn, ta) {
+				guarded = true
+			}
+			// (c) an extraction helper (requestedVersion(req)): every library call site is validated in that way
+			if !guarded {
+				callers, all := 0, true
+				for _, e := range ir.Callers(c.G, fn) {
+					if e.Site == nil || !c.P.IsLib(e.Caller.Func) {
+						continue
+					}
+					callers++
+					if !validatedAt(e.Caller.Func, e.Site) {
+						all = false
+					}
 				}
-			})
+				if callers > 0 && all {
+					guarded = true
+				}
+			}
 			if !guarded {
 				bad = append(bad, ta)
 			}
